@@ -61,7 +61,7 @@ def global_pos(frame, obj):
 
 
 def global_yaw(frame, obj):
-    u = Fraction(obj["yaw16"], 16)
+    u = Fraction(obj["yaw16"]) / 16          # yaw16 is an integer or a dyadic float (k/8 of a sixteenth of pi)
     if obj["frame"] == "map":
         return u
     return u + Fraction(ego_yaw_float(frame["ego"]["q"]))
@@ -234,11 +234,15 @@ def gen_objs(rng, frame_mode, present, state, max_new=1):
     objs = []
     for uid in present:
         st = state.setdefault(uid, {"pos8": [rng.randint(-800, 800), rng.randint(-800, 800), rng.randint(-8, 8)],
-                                    "vel8": [rng.randint(-80, 80), rng.randint(-80, 80), 0], "yaw16": rng.randint(-15, 16)})
+                                    "vel8": [rng.randint(-80, 80), rng.randint(-80, 80), 0],
+                                    "yaw16": rng.choice([rng.randint(-15, 16), rng.randint(-15, 16), 16, 15.875, -15.875, 16, 8, -8])})
         # random walk so that neighbours differ
         st["pos8"] = [st["pos8"][0] + rng.randint(-40, 40), st["pos8"][1] + rng.randint(-40, 40), st["pos8"][2] + rng.randint(-1, 1)]
         st["vel8"] = [st["vel8"][0] + rng.randint(-8, 8), st["vel8"][1] + rng.randint(-8, 8), 0]
-        st["yaw16"] = ((st["yaw16"] + rng.choice([-9, -5, -2, -1, 0, 0, 1, 2, 5, 9]) + 15) % 32) - 15
+        # turns between neighbours: coarse ones, none, and SMALL ones (1.4 / 2.8 degrees: below the 3.6 degrees under which slerp and any
+        # "nearly identical" shortcut switch to linear interpolation) -- also across the +-pi cut and, with qneg, between opposite-signed
+        # quaternions of nearly the same orientation
+        st["yaw16"] = ((st["yaw16"] + rng.choice([-9, -5, -2, -1, 0, 0, 1, 2, 5, 9, 0.125, -0.125, 0.25, -0.25, 0.125, -0.25]) + 15) % 32) - 15
         fm = frame_mode if frame_mode != "mixed" else rng.choice(["map", "base_link"])
         # the same orientation can be annotated as q or as -q (double cover); neighbouring frames often differ in that sign only
         objs.append({"id": uid, "frame": fm, "pos8": list(st["pos8"]), "vel8": list(st["vel8"]), "yaw16": st["yaw16"], "qneg": rng.random() < 0.3})
@@ -531,7 +535,7 @@ class LookupCorr(Corr):
                 uid = NONE_ID if o["id"] is None else o["id"]
                 ol.append(f"(mkObj {slit(uid)} {zlit(tag)} {zlit(fr['stamp'])} {FRAME_NAMES.get(o['frame'], 'FOther')} "
                           f"{self._vec([Fraction(k, 8) for k in o['pos8']])} {self._vec([Fraction(k, 8) for k in o['vel8']])} "
-                          f"{qlit(Fraction(o['yaw16'], 16))})")
+                          f"{qlit(Fraction(o['yaw16']) / 16)})")
                 tag += 1
             if fr["ego"] is None:
                 ego = "None"
